@@ -393,10 +393,14 @@ class SimulationAlgorithm(BaseSimulationAlgorithm):
                 np.random.normal(0.0, 1.0, self.param_study["patient_number"]),
                 dtype=torch.float32,
             )
-            individual_parameters_from_model_parameters[f"sources_{i}"] = (
-                individual_parameters_from_model_parameters[f"sources_{i}"]
-                - individual_parameters_from_model_parameters[f"sources_{i}"].mean()
-            ) / individual_parameters_from_model_parameters[f"sources_{i}"].std()
+            if self.param_study["patient_number"] > 1:
+                # empirical standardisation (undefined for a single patient: std is nan)
+                individual_parameters_from_model_parameters[f"sources_{i}"] = (
+                    individual_parameters_from_model_parameters[f"sources_{i}"]
+                    - individual_parameters_from_model_parameters[
+                        f"sources_{i}"
+                    ].mean()
+                ) / individual_parameters_from_model_parameters[f"sources_{i}"].std()
 
         patient_source_values_matrix = torch.stack(
             [
